@@ -305,9 +305,42 @@ Definition run (pl : plan) (sp : stopplan) (cfg : config) (w : world)
         end
     end.
 
-(* ~SimulationExecutorStorage: a still-started graph is stopped, failures swallowed *)
+(* Disposal.  GraphValue::reset() (graph.cpp) stops a graph that is still started when its
+   storage is destroyed, best effort; node storage is destroyed in reverse index order.  A graph
+   that is started has everything below it started, so its stop pass leaves nothing below to
+   dispose of; a graph that is not started may still own nested nodes whose child graphs were
+   left started by an aborted rollback: those are reached here. *)
+Section Dispose.
+Variable dispose1 : path -> node -> node * list event.
+Variable gp : path.
+Fixpoint dispose_loop (i : nat) (l : list node) : list node * list event :=
+  match l with
+  | [] => ([], [])
+  | c :: r =>
+      let '(r', ev1) := dispose_loop (S i) r in
+      let '(c', ev2) := dispose1 (gp ++ [i]) c in
+      (c' :: r', ev1 ++ ev2)
+  end.
+End Dispose.
+
+Fixpoint dispose_node (pl : plan) (p : path) (n : node) : node * list event :=
+  match n with
+  | Plain _ _ _ _ _ _ => (n, [])
+  | Nest st gs gt ch =>
+      if gs then
+        let '(gs', gt', ch', ev, _) := stop_graph_with (stop_node pl) false p gs gt ch in
+        (Nest st gs' gt' ch', ev)
+      else
+        let '(ch', ev) := dispose_loop (fun q c => dispose_node pl q c) p 0 ch in
+        (Nest st gs gt ch', ev)
+  end.
+
+(* ~SimulationExecutorStorage: a still-started root graph is stopped, failures swallowed;
+   then the storage is destroyed *)
 Definition release (pl : plan) (w : world) : world * list event :=
-  let '(w', ev, _) := stop_world pl w in (w', ev).
+  let '(w1, ev, _) := stop_world pl w in
+  let '(ch, ev2) := dispose_loop (dispose_node pl) [] 0 (w_nodes w1) in
+  (W (w_gs w1) (w_gt w1) ch, ev ++ ev2).
 
 (* the whole life of an executor: (log up to the return of run, what run threw, the world then,
    log of the release, the world at the end) *)
@@ -571,7 +604,8 @@ Definition failure_line (fs : list fspec) (f : option failure) : line :=
   end.
 
 (* case -> observation.  With the implementation's output appended after a line [-1], the
-   acceptor's verdict on the implementation's own event log is added as a last line [90; v]. *)
+   acceptor's verdict on the implementation's own event log is added as a last line
+   [90; log_wf impl; log_closed impl; log_closed of the model's own log]. *)
 Definition run_lifecycle (input : wire) : wire :=
   let '(case, impl) := split_at_marker input in
   let a := fold_left parse_line case (P 1 5 1 [[]] [] []) in
@@ -585,5 +619,6 @@ Definition run_lifecycle (input : wire) : wire :=
   map event_line ev2 ++ [[43]] ++ counters_list [] 0 (w_nodes w2) ++
   match impl with
   | [] => []
-  | _ => [[90; b2z (lifecycle_ok (parse_events impl))]]
+  | _ => [[90; b2z (log_wf (parse_events impl)); b2z (log_closed (parse_events impl));
+            b2z (log_closed (ev1 ++ ev2))]]
   end.
